@@ -449,7 +449,11 @@ func compileTypeAssertExpr(ctx *blockCtx, v *ast.TypeAssertExpr, twoValue bool) 
 }
 
 func compileIndexExpr(ctx *blockCtx, v *ast.IndexExpr, inFlags ...int) { // x[i]
-	compileExpr(ctx, v.X, inFlags...)
+	xFlags := inFlags
+	if twoValue(inFlags) { // `v, ok := x[i]` asks this index for two values, not its operand
+		xFlags = []int{inFlags[0] &^ clCallWithTwoValue}
+	}
+	compileExpr(ctx, v.X, xFlags...)
 	compileExpr(ctx, v.Index)
 	ctx.cb.Index(1, twoValue(inFlags), v)
 }
